@@ -32,7 +32,7 @@ def terms(minp=-4, maxp=6, maxn=6):
   return st.one_of(lst(0), lst(2), lst(2))
 
 
-ROUTES = ["dict", "list", "expr", "setitem"]
+ROUTES = ["dict", "list", "expr", "setitem", "dict_floatkeys"]
 
 
 def build(tl, route):
@@ -51,6 +51,8 @@ def build(tl, route):
     for k, c in tl:
       p[k] = c
     return p
+  if route == "dict_floatkeys":   # integer-valued float powers (e.g. computed as k / 2.) are integer powers
+    return Poly(dict((float(k), c) for k, c in tl))
   return Poly(dict(d))
 
 
@@ -220,6 +222,26 @@ def run_eval(c):
     labels.append("empty")
   if any(k < 0 for k in P):
     labels.append("negative powers")
+  # a Poly may be changed item by item until it is hashed: evaluation, printing and terms() must
+  # follow the change (nothing remembered from the first evaluation)
+  if v != 0:
+    str(p)
+    newk = max(list(P) + [0]) + 2
+    oldk = min(P) if P else None
+    p[newk] = Q(5, 3)
+    P2 = dict(P)
+    P2[newk] = F(5, 3)
+    if oldk is not None:
+      p[oldk] = Q(0)                 # assigning the zero removes the term
+      del P2[oldk]
+    if dict(p.terms()) != P2:
+      raise Violation("after item assignment terms() gives %r, expected %r" % (dict(p.terms()), P2))
+    for kind in (True, False, "auto"):
+      val = p(v, horner=kind) if P2 else p(v)
+      if val != m_eval(P2, v):
+        raise Violation("after p[%d] = 5/3%s: p(%r, horner=%r) = %r, expected %r (terms now %r)"
+                        % (newk, "" if oldk is None else " and p[%d] = 0" % oldk, v, kind, val, m_eval(P2, v), P2))
+    labels.append("mutated after evaluation")
   return {"nontrivial": len(P) >= 2 and len(Qm) >= 2, "labels": labels or ["dense"]}
 
 
@@ -378,11 +400,16 @@ def run_eqh(c):
 # ------------------------------------------------------------------ Lagrange
 def strat_lag(tier):
   pts = st.lists(st.tuples(fr, fr), min_size=1, max_size=6, unique_by=lambda t: t[0])
-  return st.fixed_dictionaries(dict(pts=pts, t=fr, as_iter=st.booleans()))
+  return st.fixed_dictionaries(dict(pts=pts, t=fr, as_iter=st.booleans(), prime=st.booleans()))
 
 
 def run_lag(c):
   pts = [tuple(p) for p in c["pts"]]
+  if c.get("prime", True):
+    # an earlier call on the same abscissae spelled as floats / ints must not influence the exact one
+    spelled = [((float(a) if F(a).denominator in (1, 2, 4) else a), float(b)) for a, b in pts]
+    lagrange.func(list(spelled))(float(c["t"]))
+    lagrange.poly([(int(a) if F(a).denominator == 1 else a, b) for a, b in spelled])
   mk = (lambda: iter(pts)) if c["as_iter"] else (lambda: list(pts))
   lp = lagrange.poly(mk())
   lf = lagrange.func(mk())
